@@ -375,7 +375,14 @@ func c08Replay(h []c08Op, observeEvery bool) (*c08Model, *c08Fail) {
 			if (env.Proof.Final != nil) != want.sealed {
 				return m, &c08Fail{"C08:sealedness-at-creation", fmt.Sprint(env.Proof.Final != nil), fmt.Sprint(want.sealed)}
 			}
-			wd.born = append(wd.born, c08Observe(nt))
+			born := c08Observe(nt)
+			wd.born = append(wd.born, born)
+			// the token in memory and the token reloaded from its own bytes are the same value
+			if re, err := biscuit.Unmarshal(ser); err == nil {
+				if rb := c08Observe(re); rb != born {
+					return m, &c08Fail{"C08:in-memory-token-differs-from-its-bytes:" + firstDiff(born, rb) + "-after-" + o.Kind, fmt.Sprintf("t%d (%s) in memory:\n%s", len(wd.toks)-1, want.origin, strings.ReplaceAll(born, "\x00", "\n")), "reloaded from its own serialization:\n" + strings.ReplaceAll(rb, "\x00", "\n")}
+				}
+			}
 		}
 		if observeEvery || step == len(h)-1 {
 			for ti, t := range wd.toks {
